@@ -1136,8 +1136,8 @@ func (fa *FA) linLen(s *Sym, mod int) *Lin {
 		// (`func clone(src []T) []T { dst := make([]T, len(src)); copy(dst, src); return dst }`)
 		if c, ok := x.V.(*ssa.Call); ok && !c.Call.IsInvoke() {
 			if g := staticCallee(&c.Call); g != nil && g.Blocks != nil && fa.P.InModule(g) {
-				if i := fa.P.sliceLenParam(g); i >= 0 && i < len(x.Args) {
-					return fa.linSym(lenOf(x.Args[i]), 0)
+				if l := fa.P.sliceLenSummary(g, fa, c.Call.Args); l != nil {
+					return l
 				}
 			}
 		}
@@ -1145,45 +1145,86 @@ func (fa *FA) linLen(s *Sym, mod int) *Lin {
 	return linAtom(s)
 }
 
-var sliceLenParamCache = map[*ssa.Function]int{}
+type sliceLenSum struct {
+	c     int64
+	coefs []int64 // per entry term of g
+}
 
-// sliceLenParam: the index of the parameter p such that every return of g (single slice result) satisfies
-// len(result) == len(p), or -1.
-func (p *Prog) sliceLenParam(g *ssa.Function) int {
-	if i, ok := sliceLenParamCache[g]; ok {
-		return i
+var sliceLenSumCache = map[*ssa.Function]*sliceLenSum{}
+
+// sliceLenSummary: when every return of g (single slice result) hands back a slice whose length is one and the same
+// affine form over g's entry terms (integer parameters, lengths of slice parameters and of slice fields of struct
+// parameters), that form evaluated for the given arguments in the caller's terms; nil otherwise.
+// `func clone(src []T) []T { dst := make([]T, len(src)); copy(dst, src); return dst }` gives len(src).
+func (p *Prog) sliceLenSummary(g *ssa.Function, cfa *FA, args []ssa.Value) *Lin {
+	sum, done := sliceLenSumCache[g]
+	if !done {
+		sliceLenSumCache[g] = nil // recursion guard
+		sum = p.computeSliceLenSum(g)
+		sliceLenSumCache[g] = sum
 	}
-	sliceLenParamCache[g] = -1 // recursion guard
+	if sum == nil {
+		return nil
+	}
+	terms := p.FA(g).entryTerms()
+	out := linConst(sum.c)
+	for i, k := range sum.coefs {
+		if k == 0 {
+			continue
+		}
+		l := terms[i].atCall(cfa, args)
+		if l == nil {
+			return nil
+		}
+		out = out.Add(l.Scale(k))
+	}
+	return out
+}
+
+func (p *Prog) computeSliceLenSum(g *ssa.Function) *sliceLenSum {
 	if g.Signature.Results().Len() != 1 {
-		return -1
+		return nil
 	}
 	if _, ok := g.Signature.Results().At(0).Type().Underlying().(*types.Slice); !ok {
-		return -1
+		return nil
 	}
 	fa := p.FA(g)
 	rets := returnsOf(g)
 	if len(rets) == 0 {
-		return -1
+		return nil
 	}
-	for i, prm := range g.Params {
-		if _, ok := prm.Type().Underlying().(*types.Slice); !ok {
+	terms := fa.entryTerms()
+	var first *Lin
+	for _, rt := range rets {
+		got := fa.linSym(lenOf(fa.Sym(rt.Results[0])), 0)
+		if first == nil {
+			first = got
+		} else if !got.Equal(first) {
+			return nil
+		}
+	}
+	// express the form over the entry terms (each term is a single atom with coefficient 1, or not usable)
+	sum := &sliceLenSum{c: first.C, coefs: make([]int64, len(terms))}
+	rest := first.clone()
+	rest.C = 0
+	for i, t := range terms {
+		if t.callee == nil || t.callee.C != 0 || len(t.callee.T) != 1 {
 			continue
 		}
-		// the parameter must not be re-assigned: its Sym is the entry value
-		want := fa.linSym(lenOf(fa.Sym(prm)), 0)
-		all := true
-		for _, rt := range rets {
-			got := fa.linSym(lenOf(fa.Sym(rt.Results[0])), 0)
-			if !got.Equal(want) {
-				all = false
+		for k, c := range t.callee.T {
+			if c != 1 {
+				continue
+			}
+			if k2, has := rest.T[k]; has {
+				sum.coefs[i] = k2
+				rest = rest.Sub(t.callee.Scale(k2))
 			}
 		}
-		if all {
-			sliceLenParamCache[g] = i
-			return i
-		}
 	}
-	return -1
+	if len(rest.T) != 0 {
+		return nil
+	}
+	return sum
 }
 
 func lenOf(x *Sym) *Sym {
